@@ -237,4 +237,414 @@ theorem inv_split {g g' : GState} {out : Out} {b at_ : Nat} (h : Inv cfg g)
             omega
       exact h1.withBlock hl2 hcur p2_one
 
+/-! ## committing a prepared allocation -/
+
+theorem Inv.clearPrepared {g : GState} (h : Inv cfg g) : Inv cfg ⟨{ g.s with prepared := none }, g.marks⟩ :=
+  h.step_to (s' := { g.s with prepared := none }) (geom_congr (s := g.s) rfl rfl rfl h.geom)
+    (disj_congr (s := g.s) rfl h.disj)
+    (liveOK_congr (s := g.s) rfl rfl rfl h.live) h.unalloc h.notClaimed h.liveCur (ChunksCov.of_eq rfl)
+    (LiveSub.of_eq rfl) (Nat.le_refl _) h.ids (h.frames.congr rfl rfl rfl) h.marks
+    (fun x hx => Or.inl hx) (fun p hp' => by cases hp')
+
+theorem liftM_add_ok {a b v : Nat} (h : liftM (Rs.add a b) = .ok v) : v = a + b := by
+  have := Mem.liftM_ok h
+  unfold Rs.add at this
+  split at this
+  · cases this; rfl
+  · cases this
+
+/-- the bytes may have been moved, then the position of the current chunk is set -/
+structure Committed (cfg : Cfg) (s s' : State) (addr size : Nat) (lo hi : Nat) : Prop where
+  mid : ∃ s1 np, SameGeom s s1 ∧ Mem.OnlyDataChanged s s1 ∧ s' = setCurPos s1 np ∧
+    (if cfg.up then addr = lo ∧ lo + size ≤ np else addr + size = hi ∧ np ≤ addr)
+
+theorem setPosAlignFrom_cases {s s' : State} {pos al : Nat} (hm : MinAlignOK s.minAlign)
+    (h : setPosAlignFrom cfg s pos al = .ok s') :
+    ∃ np, s' = setCurPos s np ∧ (if cfg.up then pos ≤ np else np ≤ pos) ∧ al ∣ pos := by
+  unfold setPosAlignFrom at h
+  obtain ⟨_, ha, h⟩ := bind_eq_ok h
+  simp only at h
+  have hdvd : al ∣ pos := by
+    have := liftM_eq_ok ha
+    unfold Rs.assert at this
+    split at this
+    · exact Nat.dvd_of_mod_eq_zero (by simpa using ‹decide (pos % al = 0) = true›)
+    · cases this
+  split at h
+  · obtain ⟨p, hp, h⟩ := bind_eq_ok h
+    cases h
+    exact ⟨p, rfl, align_pos_dir hm hp, hdvd⟩
+  · cases h
+    refine ⟨pos, rfl, ?_, hdvd⟩
+    cases cfg.up <;> simp
+
+theorem sameGeom_copy_or_id {s s1 : State} {b : Bool} {src dst len : Nat} {nov : Bool}
+    (h : (if b then copyBytes cfg s src dst len nov else pure s) = .ok s1) :
+    SameGeom s s1 ∧ Mem.OnlyDataChanged s s1 := by
+  cases b
+  · simp only [Bool.false_eq_true, ↓reduceIte] at h
+    cases h; exact ⟨SameGeom.refl _, ⟨rfl, rfl⟩⟩
+  · simp only [↓reduceIte] at h
+    exact ⟨copyBytes_geom h, Mem.copyBytes_onlyData h⟩
+
+theorem allocatePrepared_cases {s s' : State} {size rstart rend addr : Nat} {rev : Bool} (hm : MinAlignOK s.minAlign)
+    (h : allocatePrepared cfg s size rstart rend rev = .ok (s', addr)) :
+    Committed cfg s s' addr size rstart rend := by
+  unfold allocatePrepared at h
+  split at h
+  · cases hup : cfg.up
+    · rw [hup] at h
+      simp only [Bool.false_eq_true, ↓reduceIte] at h
+      obtain ⟨dst, h1, h⟩ := bind_eq_ok h
+      obtain ⟨hd1, hd2⟩ := Mem.liftM_sub_ok h1
+      subst hd1
+      have key : ∃ s1, (SameGeom s s1 ∧ Mem.OnlyDataChanged s s1) ∧
+          (liftM (Gen.LibArith.align_pos false s.minAlign (rend - size)) >>= fun p =>
+            (pure (setCurPos s1 p, rend - size) : R (State × Nat))) = .ok (s', addr) := by
+        cases rev
+        · simp only [Bool.false_eq_true, ↓reduceIte] at h
+          obtain ⟨s1, h2, h⟩ := bind_eq_ok h
+          exact ⟨s1, ⟨copyBytes_geom h2, Mem.copyBytes_onlyData h2⟩, h⟩
+        · simp only [↓reduceIte] at h
+          exact ⟨s, ⟨SameGeom.refl _, ⟨rfl, rfl⟩⟩, h⟩
+      obtain ⟨s1, hs, h⟩ := key
+      obtain ⟨p, h3, h⟩ := bind_eq_ok h
+      cases h
+      have hdir := align_pos_dir hm (by rw [hup]; exact h3)
+      simp only [hup, Bool.false_eq_true, ↓reduceIte] at hdir
+      exact ⟨s1, p, hs.1, hs.2, rfl, by simp only [hup, Bool.false_eq_true, ↓reduceIte]; exact ⟨by omega, hdir⟩⟩
+    · rw [hup] at h
+      simp only [↓reduceIte] at h
+      have key : ∃ s1, (SameGeom s s1 ∧ Mem.OnlyDataChanged s s1) ∧
+          (liftM (Rs.add rstart size) >>= fun e => liftM (Gen.LibArith.align_pos true s.minAlign e) >>= fun p =>
+            (pure (setCurPos s1 p, rstart) : R (State × Nat))) = .ok (s', addr) := by
+        cases rev
+        · simp only [Bool.false_eq_true, ↓reduceIte] at h
+          exact ⟨s, ⟨SameGeom.refl _, ⟨rfl, rfl⟩⟩, h⟩
+        · first | simp only [↓reduceIte] at h | skip
+          obtain ⟨s1, h2, h⟩ := bind_eq_ok h
+          exact ⟨s1, ⟨copyBytes_geom h2, Mem.copyBytes_onlyData h2⟩, h⟩
+      obtain ⟨s1, hs, h⟩ := key
+      obtain ⟨e, h1, h⟩ := bind_eq_ok h
+      obtain ⟨p, h3, h⟩ := bind_eq_ok h
+      cases h
+      have hee := liftM_add_ok h1
+      subst hee
+      have hdir := align_pos_dir hm (by rw [hup]; exact h3)
+      simp only [hup, ↓reduceIte] at hdir
+      exact ⟨s1, p, hs.1, hs.2, rfl, by simp only [hup, ↓reduceIte]; exact ⟨trivial, hdir⟩⟩
+  · cases h
+
+/-- from a `Committed` step to the invariant with the new block registered -/
+theorem inv_committed {g : GState} (h : Inv cfg g) (hprep : g.s.prepared = none) {s' : State} {addr size lo hi align init : Nat}
+    (hcm : Committed cfg g.s s' addr size lo hi) (hg : GeomInv cfg s')
+    (hrange : ∃ (i : Nat) (c : Chunk), g.s.cur = .chunk i ∧ g.s.chunks[i]? = some c ∧ lo ≤ hi ∧
+      (if cfg.up then c.pos ≤ lo ∧ hi ≤ c.contentEnd cfg else c.contentStart cfg ≤ lo ∧ hi ≤ c.pos))
+    (hsz : if cfg.up then True else lo + size ≤ hi)
+    (hal : align ∣ addr) (hp2 : ∃ k, k < 64 ∧ align = 2 ^ k) :
+    Inv cfg ⟨(Arena.addBlock s' addr size align init).1, g.marks⟩ := by
+  obtain ⟨s1, np, hsg, hod, rfl, hdir⟩ := hcm.mid
+  obtain ⟨i, c, hcur, hc, hlh, hfree⟩ := hrange
+  obtain ⟨c1, hc1, hcc⟩ := hsg.getElem?' hc
+  have hcur1 : s1.cur = .chunk i := hsg.cur.trans hcur
+  have hw := h.geom.chunks i c hc
+  have e1 := geom_contentStart (cfg := cfg) hcc
+  have e2 := geom_contentEnd (cfg := cfg) hcc
+  have e3 := geom_pos hcc
+  -- the final position lies in the content range
+  have hself : (setCurPos s1 np).chunks[i]? = some { c1 with pos := np } := by
+    rw [Mem.setCurPos_chunk hcur1]; exact Mem.setPos_getElem?_self hc1 np
+  have hwf := hg.chunks i _ hself
+  have hn1 : c.contentStart cfg ≤ np := by have := hwf.pos_ge; rw [← e1]; exact this
+  have hn2 : np ≤ c.contentEnd cfg := by have := hwf.pos_le; rw [← e2]; exact this
+  have hl1 : Mem.LiveOK cfg s1 := h.live.of_onlyData hod
+  have hd1 : Mem.ChunksDisjoint s1.chunks := (disjoint_iff s1).mp (hsg.shape.disjoint h.disj)
+  have hout : Mem.AllocOutcome cfg (setPos s1 i np) addr size := by
+    apply liveOK_carve2 hl1 hd1 (c := c1) ⟨by rw [e1, e3]; exact hw.pos_ge, by rw [e2, e3]; exact hw.pos_le⟩ hcur1 hc1
+    rw [e1, e2, e3]
+    cases hup : cfg.up
+    · simp only [hup, Bool.false_eq_true, ↓reduceIte] at hdir hfree hsz ⊢; omega
+    · simp only [hup, ↓reduceIte] at hdir hfree ⊢; omega
+  rw [← Mem.setCurPos_chunk hcur1] at hout
+  have hst : Stable g.s (setCurPos s1 np) := (Stable.of_onlyData hod).trans (Stable.setCurPos s1 np)
+  have hsh : SameShape g.s (setCurPos s1 np) := hsg.shape.trans (setCurPos_shape s1 np)
+  have hcur' : (setCurPos s1 np).cur = g.s.cur := (setCurPos_cur s1 np).trans hsg.cur
+  have hma : (setCurPos s1 np).minAlign = g.s.minAlign := (setCurPos_minAlign s1 np).trans hsg.minAlign
+  have h1 : Inv cfg ⟨setCurPos s1 np, g.marks⟩ :=
+    inv_of_stable h hprep hg (hsh.disjoint h.disj) hma hst
+      (fun hu => by rw [hcur', hcur] at hu; cases hu) (Or.inl hcur') hout.live
+  exact h1.withBlock (hout.addBlock hal init) ⟨i, hcur'.trans hcur⟩ hp2
+
+theorem prepOK_rangeInCur {s : State} (hg : GeomInv cfg s) {p : Prepared} (hp : PrepOK cfg s p) :
+    RangeInCur cfg s p.rstart p.rend := by
+  obtain ⟨i, c, hcur, hc, hlh, hfree⟩ := hp.range
+  have hw := hg.chunks i c hc
+  refine ⟨i, c, hcur, hc, ?_, hlh, ?_⟩
+  · have := hw.pos_ge
+    cases hup : cfg.up
+    · simp only [hup, Bool.false_eq_true, ↓reduceIte] at hfree; omega
+    · simp only [hup, ↓reduceIte] at hfree; omega
+  · have := hw.pos_le
+    cases hup : cfg.up
+    · simp only [hup, Bool.false_eq_true, ↓reduceIte] at hfree; omega
+    · simp only [hup, ↓reduceIte] at hfree; omega
+
+theorem inv_commit {g g' : GState} {out : Out} {size : Nat} {rev : Bool} (h : Inv cfg g) (hr : RespsOK cfg g.s)
+    (hs : stepCore cfg g (.commit size rev) = .ok (g', out)) : Inv cfg g' := by
+  unfold stepCore at hs
+  simp only [bind, Except.bind, pure, Except.pure] at hs
+  split at hs
+  · rename_i p hp
+    have hpo := h.prep p hp
+    split at hs
+    · cases hs
+    · split at hs
+      · cases hs
+      · rename_i hchk
+        simp only [Bool.or_eq_true, decide_eq_true_eq, bne_iff_ne, ne_eq, not_or, Nat.not_lt, Decidable.not_not] at hchk
+        obtain ⟨hsz, hmod⟩ := hchk
+        split at hs
+        · cases hs
+        · rename_i x hx
+          obtain ⟨s', addr⟩ := x
+          simp only at hs
+          cases hs
+          have h0 := h.clearPrepared
+          have hr0 : RespsOK cfg ({ g.s with prepared := none } : State) := hr
+          have hpo0 : PrepOK cfg ({ g.s with prepared := none } : State) p :=
+            hpo.congr rfl (fun i c _ hc => ⟨c, hc, rfl, rfl, rfl⟩)
+          obtain ⟨g1, _, _⟩ := C10.allocatePrepared_inv h.cfgOK h0.geom hr0 (prepOK_rangeInCur h0.geom hpo0) hsz hx
+          have hcm := allocatePrepared_cases (s := { g.s with prepared := none }) h0.geom.minAlign hx
+          have hdv : p.ealign ∣ size := Nat.dvd_of_mod_eq_zero hmod
+          refine inv_committed h0 rfl hcm g1 hpo0.range ?_ ?_ hpo.p2
+          · obtain ⟨_, _, _, _, hlh, _⟩ := hpo.range
+            cases hup : cfg.up
+            · simp only [Bool.false_eq_true, ↓reduceIte]; omega
+            · simp only [↓reduceIte]
+          · obtain ⟨s1, np, _, _, _, hdir⟩ := hcm.mid
+            cases hup : cfg.up
+            · simp only [hup, Bool.false_eq_true, ↓reduceIte] at hdir
+              have : addr = p.rend - size := by omega
+              rw [this]
+              exact Nat.dvd_sub hpo.end_al hdv
+            · simp only [hup, ↓reduceIte] at hdir
+              rw [hdir.1]; exact hpo.start_al
+  · cases hs
+
+theorem allocatePreparedSlice_cases {s s' : State} {ptr len cap esize ealign addr : Nat} {rev : Bool}
+    (hm : MinAlignOK s.minAlign) (hlen : len ≤ cap) (hrev : rev = true → cap * esize ≤ ptr)
+    (h : allocatePreparedSlice cfg s ptr len cap esize ealign rev = .ok (s', addr)) :
+    Committed cfg s s' addr (len * esize) (if rev then ptr - cap * esize else ptr) (if rev then ptr else ptr + cap * esize) := by
+  have hmul : len * esize ≤ cap * esize := Nat.mul_le_mul_right esize hlen
+  unfold allocatePreparedSlice at h
+  split at h
+  · cases rev
+    · simp only [Bool.not_false, ↓reduceIte, Bool.false_eq_true] at h ⊢
+      cases hup : cfg.up
+      · rw [hup] at h
+        simp only [Bool.false_eq_true, ↓reduceIte] at h
+        obtain ⟨s1, h1, h⟩ := bind_eq_ok h
+        obtain ⟨s2, h2, h⟩ := bind_eq_ok h
+        cases h
+        have hg := copyBytes_geom h1
+        obtain ⟨np, e1, e2, _⟩ := setPosAlignFrom_cases (by rw [hg.minAlign]; exact hm) h2
+        simp only [hup, Bool.false_eq_true, ↓reduceIte] at e2
+        exact ⟨s1, np, hg, Mem.copyBytes_onlyData h1, e1, by simp only [hup, Bool.false_eq_true, ↓reduceIte]; omega⟩
+      · rw [hup] at h
+        simp only [↓reduceIte] at h
+        obtain ⟨s2, h2, h⟩ := bind_eq_ok h
+        cases h
+        obtain ⟨np, e1, e2, _⟩ := setPosAlignFrom_cases hm h2
+        simp only [hup, ↓reduceIte] at e2
+        exact ⟨s, np, SameGeom.refl _, ⟨rfl, rfl⟩, e1, by simp only [hup, ↓reduceIte]; exact ⟨trivial, e2⟩⟩
+    · have hle := hrev rfl
+      simp only [Bool.not_true, Bool.false_eq_true, ↓reduceIte] at h ⊢
+      cases hup : cfg.up
+      · rw [hup] at h
+        simp only [Bool.false_eq_true, ↓reduceIte] at h
+        obtain ⟨s2, h2, h⟩ := bind_eq_ok h
+        cases h
+        obtain ⟨np, e1, e2, _⟩ := setPosAlignFrom_cases hm h2
+        simp only [hup, Bool.false_eq_true, ↓reduceIte] at e2
+        exact ⟨s, np, SameGeom.refl _, ⟨rfl, rfl⟩, e1, by simp only [hup, Bool.false_eq_true, ↓reduceIte]; omega⟩
+      · rw [hup] at h
+        simp only [↓reduceIte] at h
+        obtain ⟨s1, h1, h⟩ := bind_eq_ok h
+        obtain ⟨s2, h2, h⟩ := bind_eq_ok h
+        cases h
+        have hg := copyBytes_geom h1
+        obtain ⟨np, e1, e2, _⟩ := setPosAlignFrom_cases (by rw [hg.minAlign]; exact hm) h2
+        simp only [hup, ↓reduceIte] at e2
+        exact ⟨s1, np, hg, Mem.copyBytes_onlyData h1, e1, by simp only [hup, ↓reduceIte]; exact ⟨trivial, e2⟩⟩
+  · cases h
+
+theorem inv_commitSlice {g g' : GState} {out : Out} {len : Nat} (h : Inv cfg g) (hr : RespsOK cfg g.s)
+    (hs : stepCore cfg g (.commitSlice len) = .ok (g', out)) : Inv cfg g' := by
+  unfold stepCore at hs
+  simp only [bind, Except.bind, pure, Except.pure] at hs
+  split at hs
+  · rename_i p hp
+    have hpo := h.prep p hp
+    split at hs
+    · cases hs
+    · rename_i htyped
+      have hty : p.typed = true := by simpa using htyped
+      obtain ⟨hes, hae, hdv⟩ := hpo.typed hty
+      split at hs
+      · cases hs
+      · rename_i hchk
+        have hlen : len ≤ (p.rend - p.rstart) / p.esize := by simpa using hchk
+        split at hs
+        · cases hs
+        · rename_i x hx
+          obtain ⟨s', addr⟩ := x
+          simp only at hs
+          cases hs
+          have h0 := h.clearPrepared
+          have hr0 : RespsOK cfg ({ g.s with prepared := none } : State) := hr
+          have hpo0 : PrepOK cfg ({ g.s with prepared := none } : State) p :=
+            hpo.congr rfl (fun i c _ hc => ⟨c, hc, rfl, rfl, rfl⟩)
+          obtain ⟨_, _, _, _, hlh, _⟩ := hpo.range
+          have hcap : (p.rend - p.rstart) / p.esize * p.esize = p.rend - p.rstart := Nat.div_mul_cancel hdv
+          have hlo : (if p.rev then (if p.rev then p.rend else p.rstart) - (p.rend - p.rstart) / p.esize * p.esize
+              else (if p.rev then p.rend else p.rstart)) = p.rstart := by
+            rw [hcap]; cases p.rev <;> simp <;> omega
+          have hhi : (if p.rev then (if p.rev then p.rend else p.rstart)
+              else (if p.rev then p.rend else p.rstart) + (p.rend - p.rstart) / p.esize * p.esize) = p.rend := by
+            rw [hcap]; cases p.rev <;> simp <;> omega
+          have hrev : p.rev = true → (p.rend - p.rstart) / p.esize * p.esize ≤ (if p.rev then p.rend else p.rstart) := by
+            intro hrv; rw [hcap, hrv]; simp
+          have hrange := prepOK_rangeInCur h0.geom hpo0
+          obtain ⟨g1, _, _⟩ := C10.allocatePreparedSlice_inv h.cfgOK h0.geom hr0
+            (let ⟨k, _, hk⟩ := hpo.p2; ⟨k, hk⟩) (by rw [hlo, hhi]; exact hrange) hrev hlen hx
+          have hcm := allocatePreparedSlice_cases (s := { g.s with prepared := none }) h0.geom.minAlign hlen hrev hx
+          rw [hlo, hhi] at hcm
+          have hmul : len * p.esize ≤ p.rend - p.rstart := by
+            rw [← hcap]; exact Nat.mul_le_mul_right _ hlen
+          have hdvs : p.ealign ∣ len * p.esize := Nat.dvd_trans hae (Nat.dvd_mul_left _ _)
+          refine inv_committed h0 rfl hcm g1 hpo0.range ?_ ?_ hpo.p2
+          · cases hup : cfg.up
+            · simp only [Bool.false_eq_true, ↓reduceIte]; omega
+            · simp only [↓reduceIte]
+          · obtain ⟨s1, np, _, _, _, hdir⟩ := hcm.mid
+            cases hup : cfg.up
+            · simp only [hup, Bool.false_eq_true, ↓reduceIte] at hdir
+              have : addr = p.rend - len * p.esize := by omega
+              rw [this]
+              exact Nat.dvd_sub hpo.end_al hdvs
+            · simp only [hup, ↓reduceIte] at hdir
+              rw [hdir.1]; exact hpo.start_al
+  · cases hs
+
+/-! ## prepareSlice -/
+
+/-- after an allocation path, with the prepared allocation replaced by `q'` -/
+theorem inv_of_allocPost_prep {g : GState} (h : Inv cfg g) {k : Kind} {L : Layout} {s' : State}
+    {r : Except AErr (Nat × Nat)} (p : AllocPost cfg k L g.s s' r) (q' : Option Prepared)
+    (hq : ∀ q, q' = some q → PrepOK cfg s' q) : Inv cfg ⟨{ s' with prepared := q' }, g.marks⟩ := by
+  have hst := p.stable
+  have hsub : LiveSub g.s { s' with prepared := q' } := hst.liveSub
+  have hn : g.s.nextId ≤ ({ s' with prepared := q' } : State).nextId := Nat.le_of_eq hst.nextId.symm
+  refine h.step_to (geom_congr (s := s') rfl rfl rfl p.inv) (disj_congr (s := s') rfl p.disj)
+    (liveOK_congr (s := s') rfl rfl rfl (p.live h.live)) (p.unallocEmpty h.unalloc) (p.notClaimed h.notClaimed)
+    (p.liveCur h.liveCur) hst.cov hsub hn ?_ ?_ (fun x hx => Nat.le_trans (h.marks x hx) hn)
+    (fun x hx => Or.inl (hst.userCps ▸ hx)) ?_
+  · intro b hb
+    have := h.ids b (hst.live ▸ hb)
+    exact Nat.lt_of_lt_of_le this hn
+  · show FramesOK cfg _ s'.minAlign s'.frames g.marks
+    rw [p.minAlign, hst.frames]; exact h.frames.mono' hst.cov hsub hn
+  · intro q hq'
+    exact (hq q hq').congr rfl (fun i c _ hc => ⟨c, hc, rfl, rfl, rfl⟩)
+
+theorem checked_mul_some {a b v : Nat} (h : Rs.checked_mul a b = some v) : v = a * b := by
+  unfold Rs.checked_mul at h
+  split at h
+  · cases h; rfl
+  · cases h
+
+theorem layoutOk_valid {n al : Nat} (hp : Rs.is_power_of_two al = true) (h : layoutOk n al = true) :
+    ({ size := n, align := al } : Layout).Valid := by
+  obtain ⟨k, hk⟩ := p2_of_is_power_of_two _ hp
+  unfold layoutOk at h
+  have hs : n + (al - 1) ≤ Rs.IMAX := by simpa using h
+  refine ⟨⟨k, ?_, hk⟩, hs⟩
+  have himax : Rs.IMAX < 2 ^ 63 := by decide
+  have : 2 ^ k ≤ 2 ^ 63 := by rw [← hk]; omega
+  by_cases hlt : k < 64
+  · exact hlt
+  · exfalso
+    have : 2 ^ 64 ≤ 2 ^ k := Nat.pow_le_pow_right (by decide) (by omega)
+    have : (2:Nat) ^ 63 < 2 ^ 64 := by decide
+    omega
+
+theorem inv_prepareSlice {g g' : GState} {out : Out} {esize ealign minCap : Nat} {rev : Bool}
+    (hp2 : Rs.is_power_of_two ealign = true) (h : Inv cfg g)
+    (hr : RespsOK cfg g.s) (hf : RespsFresh g.s)
+    (hs : stepCore cfg g (.prepareSlice esize ealign minCap rev) = .ok (g', out)) : Inv cfg g' := by
+  unfold stepCore at hs
+  simp only [bind, Except.bind, pure, Except.pure] at hs
+  split at hs
+  · cases hs
+  · rename_i hchk
+    simp only [Bool.or_eq_true, beq_iff_eq, bne_iff_ne, ne_eq, not_or, Decidable.not_not] at hchk
+    obtain ⟨hes, hmod⟩ := hchk
+    have hae : ealign ∣ esize := Nat.dvd_of_mod_eq_zero hmod
+    split at hs
+    · cases hs; exact h
+    · rename_i bytes hbytes
+      have hb := checked_mul_some hbytes
+      split at hs
+      · cases hs; exact h
+      · rename_i hlo
+        have hL : ({ size := bytes, align := ealign } : Layout).Valid := layoutOk_valid hp2 (by simpa using hlo)
+        have hdv : ealign ∣ bytes := by rw [hb]; exact Nat.dvd_trans hae (Nat.dvd_mul_right _ _)
+        split at hs
+        · cases hs
+        · rename_i x hx
+          obtain ⟨s1, r1⟩ := x
+          have p := allocGeneric_post h.cfgOK h.geom hr h.disj hf .range hL (fun _ => hdv) (fun _ => hdv) (fun _ => hdv) hx
+          cases r1 with
+          | error e =>
+            simp only at hs
+            cases hs
+            obtain ⟨c1, c2⟩ := p.cur_err e rfl
+            have := inv_of_allocPost_prep h p s1.prepared (by
+              intro q hq
+              rw [p.stable.prepared] at hq
+              exact (h.prep q hq).congr c1 c2)
+            exact this
+          | ok v =>
+            obtain ⟨a, b⟩ := v
+            simp only at hs
+            cases hs
+            obtain ⟨f1, f2, f3, i, c, f4, f5, f6⟩ := p.found (a, b) rfl
+            simp only at f1 f2 f3 f6
+            have hcapm : (b - a) / esize * esize ≤ b - a := Nat.div_mul_le_self _ _
+            have hdvc : ealign ∣ (b - a) / esize * esize := Nat.dvd_trans hae (Nat.dvd_mul_left _ _)
+            refine inv_of_allocPost_prep h p _ ?_
+            intro q hq
+            simp only [Option.some.injEq] at hq
+            subst hq
+            have hsame : (if rev = true then if cfg.up = true then (a, a + (b - a) / esize * esize) else (b - (b - a) / esize * esize, b)
+                else if cfg.up = true then (a, a + (b - a) / esize * esize) else (b - (b - a) / esize * esize, b)) =
+                (if cfg.up = true then (a, a + (b - a) / esize * esize) else (b - (b - a) / esize * esize, b)) := by
+              cases rev <;> simp
+            simp only [hsame]
+            cases hup : cfg.up
+            · simp only [hup, Bool.false_eq_true, ↓reduceIte] at f6 ⊢
+              refine ⟨⟨i, c, f4, f5, ?_, ?_⟩, hL.1,
+                Nat.dvd_sub f2 hdvc, f2, fun _ => ⟨Nat.pos_of_ne_zero hes, hae, ?_⟩⟩
+              · simp only; omega
+              · simp only [hup, Bool.false_eq_true, ↓reduceIte]; omega
+              simp only
+              have : b - (b - (b - a) / esize * esize) = (b - a) / esize * esize := by omega
+              rw [this]; exact Nat.dvd_mul_left _ _
+            · simp only [hup, ↓reduceIte] at f6 ⊢
+              refine ⟨⟨i, c, f4, f5, by simp only; omega, by simp only [hup, ↓reduceIte]; omega⟩, hL.1,
+                f1, Nat.dvd_add f1 hdvc, fun _ => ⟨Nat.pos_of_ne_zero hes, hae, ?_⟩⟩
+              simp only
+              have : a + (b - a) / esize * esize - a = (b - a) / esize * esize := by omega
+              rw [this]; exact Nat.dvd_mul_left _ _
+
 end Arena.Hist
